@@ -15,7 +15,7 @@ def isAcq : Pc → Bool
 
 theorem tstep_enabled {t : Tid} {g : Glob} {th : Thread} (hT : TI kd res t g th) (hf : th.finished = false) :
     (isAcq th.pc = true ∧ g.lock ≠ none) ∨ (tstep kd res t g th).isSome = true := by
-  obtain ⟨hl, hk, _, _, hp⟩ := hT
+  obtain ⟨hl, hk, _, _, _, hp⟩ := hT
   cases hpc : th.pc <;> simp only [hpc, inLocked, kindOK, pcInv, isAcq, Thread.finished] at hl hk hp hf ⊢ <;>
     simp only [tstep, hpc]
   case idle =>
@@ -23,6 +23,10 @@ theorem tstep_enabled {t : Tid} {g : Glob} {th : Thread} (hT : TI kd res t g th)
     cases htd : th.todo with
     | nil => simp [htd] at hf
     | cons op rest => cases op <;> simp <;> split <;> simp
+  case lSdWrite =>
+    right; obtain ⟨_, _, ⟨i, hi, _⟩, hsn⟩ := hp; simp [hi, hsn]
+  case lInit =>
+    right; obtain ⟨_, _, i, hi⟩ := hp; simp [hi]
   all_goals first
     | (right; simp; done)
     | (by_cases hlk : g.lock = none <;> simp [hlk]; done)
@@ -76,5 +80,52 @@ theorem clear_frame {t : Tid} {g g' : Glob} {th th' : Thread}
   rcases hpc with hpc | hpc | hpc | hpc <;> simp only [tstep, hpc] at h <;> (try split at h) <;>
     (try simp only [Option.some.injEq, Prod.mk.injEq, reduceCtorEq] at h) <;>
     (try (obtain ⟨rfl, rfl⟩ := h)) <;> simp_all
+
+
+/-- only `self.__instances = WeakValueDictionary()` (cWeak) starts a new epoch -/
+theorem tstep_epoch {t : Tid} {g g' : Glob} {th th' : Thread} (hpc : th.pc ≠ .cWeak)
+    (h : tstep kd res t g th = some (g', th')) : g'.epoch = g.epoch := by
+  cases hp : th.pc <;> simp only [hp, ne_eq, not_true_eq_false, reduceCtorEq, not_false_eq_true] at hpc <;>
+    simp only [tstep, hp] at h
+  all_goals (try (split at h)) <;> (try (split at h)) <;> (try (split at h)) <;>
+    (try simp only [Option.some.injEq, Prod.mk.injEq, reduceCtorEq] at h) <;>
+    (try (obtain ⟨rfl, rfl⟩ := h)) <;> (try rfl)
+  all_goals (cases h)
+
+/-- factories without `cache_clear` (tzoffset, tzstr; also the singleton) stay in epoch 0 -/
+theorem epoch_zero {cap : Nat} {scripts : List (List Op)} {s : State} (hk : kd ≠ .gettz)
+    (h : Reachable kd res (initState cap scripts) s) : s.g.epoch = 0 := by
+  induction h with
+  | init => rfl
+  | @step s1 s2 l hr hs ih =>
+    have hI := reachable_inv (init_inv (kd := kd) (res := res) cap scripts) hr
+    cases l with
+    | thr t =>
+      simp only [step] at hs
+      split at hs
+      · cases hs
+      · rename_i th hth
+        split at hs
+        · cases hs
+        · rename_i g' th' hstep
+          cases hs
+          have hne : th.pc ≠ .cWeak := by
+            intro hc
+            have := (hI.ti t th hth).kind
+            simp only [hc, kindOK] at this
+            exact hk this
+          simp only [tstep_epoch hne hstep, ih]
+    | drop t n =>
+      simp only [step] at hs
+      split at hs
+      · cases hs; exact ih
+      · cases hs
+    | collect k =>
+      simp only [step] at hs
+      split at hs
+      · split at hs
+        · cases hs
+        · cases hs; exact ih
+      · cases hs
 
 end Fact
